@@ -125,6 +125,48 @@ def case_cond_special(cls, Rc, Rx, Dy, Dx):
     return Case(label, fn)
 
 
+def case_nn(Ru, Dy, Dx, Du, Rx):
+    label = f"nncontrol/Ru{Ru}/Dy{Dy}Dx{Dx}Du{Du}/Rx{Rx}"
+    def fn(m):
+        rng = gen.rng_path(m.seed, label)
+        fails = []
+        S = gen.pd_batch(rng, 1, Dy)
+        W = rng.standard_normal((Du, Dy * (Dx + 1))); c = rng.standard_normal(Dy * (Dx + 1))
+        nn = m.nncond(Dy, Dx, Du, S, W, c)
+        u = rng.standard_normal((Ru, Du))
+        out = u @ W + c
+        M = out[:, :Dy * Dx].reshape(Ru, Dy, Dx); b = out[:, Dy * Dx:]
+        g = m.cond(Ru, Dy, Dx, M, b, Sigma=np.tile(S, (Ru, 1, 1)))       # general class, same parameters
+        params = dict(Ru=Ru, Dy=Dy, Dx=Dx, Du=Du, Rx=Rx)
+        same(fails, "nn:set_control_variable", m.regs.get(m.nn_set_control(nn, u)), m.regs.get(g), params)
+        p = mk_pdf(m, rng, Rx if Ru == 1 else 1, Dx)
+        for which in ("joint", "marginal", "conditional"):
+            same(fails, f"nn:{which}", m.regs.get(m.nn_call(which, nn, u, p.reg)), m.regs.get(m.transform(which, g, p.reg)), params, tol=1e-7)
+        a = m.nn_call("cond_entropy", nn, u, p.reg); bb = m.transform("cond_entropy", g, p.reg)
+        if m.regs.get(a) is not None and m.regs.get(bb) is not None:
+            fail_if(fails, PROPERTY, "nn:conditional_entropy", "NN-controlled conditional disagrees with the general class", np.asarray(m.regs[a]), np.asarray(m.regs[bb]), params=params)
+        a = m.nn_call("mutual_information", nn, u, p.reg); bb = m.transform("mutual_information", g, p.reg)
+        if m.regs.get(a) is not None and m.regs.get(bb) is not None:
+            fail_if(fails, PROPERTY, "nn:mutual_information", "NN-controlled conditional disagrees with the general class", np.asarray(m.regs[a]), np.asarray(m.regs[bb]), params=params)
+        else:
+            fails.append(failure(PROPERTY, "nn:mutual_information", "raised", params=params))
+        N = 3 if Ru == 1 else Ru
+        x = m.arr(gen.points(rng, 2, Dx)); y = m.arr(gen.points(rng, N, Dy))
+        same(fails, "nn:condition_on_x_u", m.regs.get(m.nn_call("condition_on_x", nn, u, x)), m.regs.get(m.condition_on_x(g, x)), params)
+        same(fails, "nn:set_y", m.regs.get(m.nn_call("set_y", nn, u, y)), m.regs.get(m.set_y(g, y)), params)
+        if Ru == 1:
+            q = mk_pdf(m, rng, 2, Dy + Dx)
+            la = m.nn_call("log_cond", nn, u, q.reg); lb = m.log_cond(g, q.reg)
+            if m.regs.get(la) is not None and m.regs.get(lb) is not None:
+                fail_if(fails, PROPERTY, "nn:integrate_log_conditional", "NN-controlled conditional disagrees", np.asarray(m.regs[la]), np.asarray(m.regs[lb]), params=params)
+            yy = m.arr(gen.points(rng, p.R, Dy))
+            la = m.nn_call("log_cond_y", nn, u, p.reg, yy); lb = m.log_cond_y(g, p.reg, yy)
+            if m.regs.get(la) is not None and m.regs.get(lb) is not None:
+                fail_if(fails, PROPERTY, "nn:integrate_log_conditional_y", "NN-controlled conditional disagrees", np.asarray(m.regs[la]), np.asarray(m.regs[lb]), params=params)
+        return fails
+    return Case(label, fn)
+
+
 def cases(seed, tier):
     rng = gen.rng_path(seed, "C15")
     out = []
@@ -134,6 +176,8 @@ def cases(seed, tier):
                 out.append(case_factor_kinds(kind, R1, R2, D, cached))
     for (R, D) in [(2, 3), (1, 1)] + ([(3, 4)] if tier != "quick" else []):
         out.append(case_diag_measure(R, D))
+    for (Ru, Dy, Dx, Du, Rx) in [(1, 2, 3, 2, 1), (1, 3, 2, 1, 3), (3, 2, 2, 2, 1)] + ([(2, 1, 3, 3, 1), (1, 2, 1, 2, 2)] if tier != "quick" else []):
+        out.append(case_nn(Ru, Dy, Dx, Du, Rx))
     grid = [s for s in shape_grid(seed, "C15", tier) if s[0] != "full"]
     for s in grid:
         out.append(case_cond_special(*s))
